@@ -159,7 +159,7 @@ func closeTo(got, want, scale float64) bool {
 	if math.IsNaN(got) || math.IsInf(got, 0) {
 		return false
 	}
-	tol := 1e-9*math.Max(scale, math.Abs(want)) + 1e-10
+	tol := 1e-7*math.Max(scale, math.Abs(want)) + 1e-9
 	d := math.Abs(got - want)
 	if s := math.Max(scale, math.Abs(want)); s > 0 && d <= tol {
 		evid.RelErr(d / math.Max(s, 1e-1))
